@@ -68,7 +68,7 @@ def sensortran_files(outdir, n, nx, ts0=1253746607, step=900):
     return stamps
 
 
-def sensornet_files(outdir, n, naming, minute0=10, drop_tail=0, info=None):
+def sensornet_files(outdir, n, naming, minute0=10, drop_tail=0, info=None, acq=None):
     """double-ended templates; naming 'oryx' (Oryx template, time in the name, backward channel stored aligned) or 'halo'
     (Sentinel template, names carry date + run number + file number, backward channel flipped by the reader)"""
     os.makedirs(outdir, exist_ok=True)
@@ -92,6 +92,10 @@ def sensornet_files(outdir, n, naming, minute0=10, drop_tail=0, info=None):
                 h[i] = f"time\t18:{minute0 + f}:46"
             if l.startswith("T ext. ref 1"):
                 h[i] = l.split("\t")[0] + f"\t{1000 + f}{dec}0"
+            if acq is not None and l.startswith("forward acquisition time"):
+                h[i] = f"forward acquisition time\t{acq[f][0]}{dec}00"
+            if acq is not None and l.startswith("reverse acquisition time"):
+                h[i] = f"reverse acquisition time\t{acq[f][1]}{dec}00"
         rows = []
         for r, l in enumerate(data):
             c = l.split("\t")
